@@ -487,10 +487,17 @@ def checkSubtimeL (parent : PV) : List PV → Except Err Unit
 def bracketOpen : Bytes := [0x5B]
 def bracketClose : Bytes := [0x5D]
 
-/-- `OscBundleBuilder.build()` up to the datagram -/
+/-- the size-prefixed concatenation of bundle elements -/
+def frame : List Bytes → Bytes
+  | [] => []
+  | c :: cs => be32 c.length ++ c ++ frame cs
+
+/-- `OscBundleBuilder.build()` up to the datagram (`write_timetag` needs an unsigned 64-bit value,
+    `write_int(content.size)` a signed 32-bit one) -/
 def encodeBundleRaw (tt : Int) (contents : List Bytes) : Except Err Bytes :=
   if tt < 0 ∨ tt ≥ 18446744073709551616 then .error .bundleBuild
-  else .ok (bundlePrefix ++ be64 tt.toNat ++ (contents.map fun c => be32 c.length ++ c).flatten)
+  else if contents.any (fun c => c.length ≥ 2147483648) then .error .bundleBuild
+  else .ok (bundlePrefix ++ be64 tt.toNat ++ frame contents)
 
 def finishBundle (tt : Int) (contents : List Bytes) : Except Err Bytes := do
   let d ← encodeBundleRaw tt contents
